@@ -3,7 +3,7 @@
    theorems of Compile/StmtSim.v apply to them (their hypotheses are satisfiable). *)
 From MS Require Import Lang.Eval.
 From MS Require Import Vm.Model Lang.Syntax Compile.Compile Verify.Sound Compile.ExprBase Compile.ExprSim.
-From MS Require Import Compile.StmtMach Compile.StmtRel Compile.StmtFrag Compile.StmtSim.
+From MS Require Import Compile.StmtMach Compile.StmtRel Compile.StmtFrag Compile.StmtSim Compile.StmtFun.
 Open Scope nat_scope.
 
 Definition vx : str := [120%N].   Definition vy : str := [121%N].   Definition vi : str := [105%N].
@@ -107,4 +107,54 @@ Proof.
   - exists fuel'. split; [exact H1|].
     change (snd (run 5000 nv_s4)) with RODone in H2.
     destruct (snd (fst (execute fuel' (cprogram nvp nv_s4) (s_module_fn nvp)))); try contradiction. reflexivity.
+Qed.
+
+(* ---------------------------------------------------------------- stage 4b: closure-free module-level functions, called in
+   expression position (assignment / print / expression statement, also inside loops); early return from inside a
+   loop inside an if; a function that falls off its end (void; ret) *)
+Definition vf : str := [102%N].   Definition vg : str := [103%N].
+Definition nv_ft : ftab :=
+  [ (vf, ([vn], [ SAssign vacc (EInt 0);
+                  SFrom (EInt 0) (EVar vn) false None (Some vi) false
+                    [ SIf (EBin BGt (EVar vi) (EInt 3)) [ SReturn (Some (EBin BMul (EVar vacc) (EInt 100))) ];
+                      SOpAssign vacc BAdd (EVar vi) ];
+                  SReturn (Some (EVar vacc)) ]));
+    (vg, ([vx; vy], [ SIf (EBin BLt (EVar vx) (EVar vy)) [ SPrint (EStr [60%N]); SReturn (Some (EVar vy)) ];
+                      SPrint (EBin BAdd (EVar vx) (EVar vy)) ])) ].
+Definition nv_main : list stmt :=
+  [ SAssign vt (ECall (EVar vf) [EInt 3]);
+    SPrint (EVar vt);
+    SPrint (ECall (EVar vf) [EBin BAdd (EVar vt) (EInt 4)]);
+    SExpr (ECall (EVar vg) [EVar vt; EInt 1]);
+    SWhile (EBin BLt (EVar vt) (EInt 500))
+      [ SIfElse (EBin BLt (EVar vt) (EInt 5)) [ SAssign vt (ECall (EVar vg) [EVar vt; EInt 9]) ]
+                                              [ SAssign vt (ECall (EVar vf) [EVar vt]) ];
+        SPrint (EVar vt) ] ].
+Definition nv_s5 : source := fmodule nv_ft nv_main.
+Example C01_nv_stage4b :
+  ok_block nv_ft false [] nv_main = true /\
+  vm_out nv_s5 5000 = (fst (run 5000 nv_s5), Done) /\ snd (run 5000 nv_s5) = RODone /\
+  fst (run 5000 nv_s5) = [[51]; [54; 48; 48]; [52]; [60]; [57]; [54; 48; 48]]%N.
+Proof. vm_compute. repeat split. Qed.
+
+Lemma nv_ft_ok : Forall fn_ok nv_ft.
+Proof.
+  repeat constructor; try (vm_compute; reflexivity); try (intros [H|H]; try discriminate H; try destruct H);
+    try (intros []).
+Qed.
+
+Lemma nv_ft_nd : NoDup (fnames nv_ft).
+Proof. cbn. constructor; [intros [H|[]]; discriminate H|]. constructor; [intros []|constructor]. Qed.
+
+Example C01_nv_fun_theorem_applies : exists fuel',
+  fst (fst (execute fuel' (cprogram nvp nv_s5) (s_module_fn nvp))) = fst (run 5000 nv_s5) /\
+  snd (fst (execute fuel' (cprogram nvp nv_s5) (s_module_fn nvp))) = Done.
+Proof.
+  destruct (module_fun_correct nvp nv_ft nv_main nv_ft_ok nv_ft_nd
+              ltac:(vm_compute; reflexivity) ltac:(vm_compute; reflexivity) 5000
+              ltac:(vm_compute; discriminate)) as [Hn|(fuel' & H1 & H2)].
+  - change (snd (run 5000 (fmodule nv_ft nv_main))) with RODone in Hn. destruct Hn.
+  - exists fuel'. split; [exact H1|].
+    change (snd (run 5000 (fmodule nv_ft nv_main))) with RODone in H2.
+    destruct (snd (fst (execute fuel' (cprogram nvp (fmodule nv_ft nv_main)) (s_module_fn nvp)))); try contradiction. reflexivity.
 Qed.
